@@ -114,13 +114,25 @@ def check_run(init, progs, file_s, outs_s):
 
 
 def run(ctx):
-    binp = build(ctx)
+    binp = explore(ctx)
     if not binp:
         return
+    tail(ctx, binp)
+
+
+def explore(ctx, subset=None):
+    """every schedule of the listed worlds on the instrumented implementation, judged against the serial semantics
+    and replayed on the Lean Conc model; subset: a short list of worlds (for other properties that speak about
+    concurrently running tests)"""
+    binp = build(ctx)
+    if not binp:
+        return None
     worlds = []
-    for a, b in itertools.product(KINDS, repeat=2):
+    for a, b in (subset if subset is not None else itertools.product(KINDS, repeat=2)):
         worlds.append([[a], [b]])
-    if ctx.tier == 'thorough':
+    if subset is not None:
+        pass
+    elif ctx.tier == 'thorough':
         for a, b, c, d in itertools.product(['create', 'match', 'update', 'mismatch'], repeat=4):
             worlds.append([[a, b], [c, d]])
         for a, b, c in itertools.product(['create', 'update', 'match'], repeat=3):
@@ -141,10 +153,10 @@ def run(ctx):
         i_s, p_s, init, progs = world(w, interleave=True)
         ops.append('conc %s %s all' % (i_s, p_s))
         meta[(i_s, p_s)] = (init, progs, w)
-    rc, lines, tail = core.run_raw(ctx, binp, 'TestVerifSched', ops, env={'VERIF_MAXRUNS': '4000' if ctx.tier == 'quick' else '60000'}, timeout=3000)
+    rc, lines, tail_ = core.run_raw(ctx, binp, 'TestVerifSched', ops, env={'VERIF_MAXRUNS': '4000' if ctx.tier == 'quick' else '60000'}, timeout=3000)
     if rc != 0:
-        ctx.add_obl('B.corr conc', False, 'schedule explorer failed: exit %s\n%s' % (rc, tail))
-        return
+        ctx.add_obl('B.corr conc', False, 'schedule explorer failed: exit %s\n%s' % (rc, tail_))
+        return None
     runs = [l for l in lines if l.startswith('run ')]
     st = ctx.stats['suites'].setdefault('conc.explore', dict(worlds=len(worlds), schedules=len(runs), oracle_fail=0, corr_mismatch=0, known_D4=0))
     ctx.stats['evaluations'] += len(runs)
@@ -197,6 +209,11 @@ def run(ctx):
         ctx.violations = [v for v in ctx.violations if v[2]] + [v for v in ctx.violations if not v[2] and not v[0].startswith('corr')]
     for l in runs[:3]:
         ctx.stats['samples'].append(l[:200])
+    return binp
+
+
+def tail(ctx, binp):
+    from suites import LISTED
     # the instance of the serialisability theorem for the lock discipline found in the source
     locks = ctx.facts.get('locks', {}) if hasattr(ctx, 'facts') else {}
     all_locked = locks.get('getPrevSnapshot') == ['R'] and locks.get('addNewSnapshot') == ['W'] and locks.get('updateSnapshot') == ['W']
